@@ -14,18 +14,23 @@ concrete file-level loader model of C05 (Model/DexFile.lean: `step`, `loadEntrie
    `frame_iff_deps_adequate`, refutations for mutated tables `deps_mutants_refuted`),
  * permutation invariance of `parseDex` at file level, errors included (`parse_perm_invariant`),
    under the decidable hypothesis that no item decodes differently after the map list was
-   rewritten, and that this hypothesis cannot be dropped (`parse_perm_needs_items`).
+   rewritten — which follows when no item is read from the bytes of the map entries
+   (`parse_perm_invariant_disjoint`) — and that this hypothesis cannot be dropped
+   (`parse_perm_needs_items`).
 What is not proved here: that the real `parse` of the item types WITHOUT a parser in
 Model/DexFile.lean (annotations, debug info, encoded arrays, call sites, method handles,
 hidden-api data) reads only what its declared dependencies provide — for those the dependency
 table stays the code's own claim, validated by the correspondence `dexperm` of
-harness/props/c07.py; and a geometric criterion (item regions disjoint from the map list) for
-the `sameItems` hypothesis.
+harness/props/c07.py.  `parse_perm_invariant_disjoint` replaces the `sameItems` hypothesis by a
+geometric one on the original file (`items_local`: the decoders are local); an item section that
+starts below the map list and FAILS to decode is outside that criterion (it may have read into
+the map list), there `sameItems` has to be checked directly.
 -/
 import AgVerif.Proof.LoadOrder
 import AgVerif.Gen.MapDeps
 import AgVerif.Proof.DexDeps
 import AgVerif.Proof.DexPerm
+import AgVerif.Proof.DexGeom
 namespace AgVerif.C07
 open AgVerif.LoadOrder AgVerif.Gen.MapDeps
 
@@ -175,7 +180,7 @@ table for `e.type` and leave every other table of their state as it was.
 Map types without an item parser in Model/DexFile.lean (annotations, debug info, encoded arrays,
 call sites, method handles, hidden-api data) leave the model state unchanged: for them the
 dependency claims stay covered by the correspondence `dexperm` only. -/
-open AgVerif.DexFile AgVerif.DexFrame AgVerif.DexPerm
+open AgVerif.DexFile AgVerif.DexFrame AgVerif.DexPerm AgVerif.DexGeom
 
 /-- (1) frame, against the table of the source: the item parser of every entry depends on the
     ClassManager only through the tables of the (transitively) declared dependencies of its type.
@@ -247,6 +252,27 @@ theorem parse_perm_invariant (file : Bytes) (mapOff : Nat) (rest : Bytes) (es es
     (maplist_perm_invariant "KeyError" (step _) {} es' es hperm
       ((hperm.map (·.type)).nodup_iff.mpr hdistinct)) hitems
 
+/-- the item decoders are local: if `g` has the length of `f`, the same first `a` bytes and the same
+    bytes from `b` on, then every map entry that is `clearOf` the range [a, b) — its type has no item
+    parser in the model, or its items start at or behind `b`, or they decode successfully in `f` from
+    bytes below `a` (`itemsEnd`) — has the same raw items in both files. -/
+theorem items_local (f g : Bytes) (a b : Nat) (hlen : g.length = f.length) (hpre : g.take a = f.take a)
+    (hpost : ∀ o, b ≤ o → g.drop o = f.drop o) (e : MapEntry) (hc : clearOf f a b e) : sameItems g f e :=
+  sameItems_of_clear f g a b hlen hpre hpost e hc
+
+/-- (2), geometric form: `parse_perm_invariant` with the hypothesis about the items replaced by a
+    decidable condition on the ORIGINAL file only: no entry reads its items from the bytes
+    [map_off + 4, map_off + 4 + 12·n) that hold the n map entries. -/
+theorem parse_perm_invariant_disjoint (file : Bytes) (mapOff : Nat) (rest : Bytes) (es es' : List MapEntry)
+    (hbytes : ∀ b ∈ file, b < 256)
+    (hhdr : u32 (file.drop 0x34) = some (mapOff, rest)) (hoff : 0x34 ≤ mapOff)
+    (hmap : readMap file mapOff = .ok es)
+    (hperm : es'.Perm es) (hdistinct : (es.map (·.type)).Nodup)
+    (hclear : ∀ e ∈ es, clearOf file (mapOff + 4) (mapOff + 4 + 12 * es.length) e) :
+    parseDex (withMap file mapOff es') = parseDex file :=
+  parse_perm_invariant file mapOff rest es es' hbytes hhdr hoff hmap hperm hdistinct
+    (sameItems_withMap file mapOff es es' hbytes hmap hperm hclear)
+
 /-- the same for two arbitrary files: equal map_off, map lists that are permutations of each other
     (distinct types), same raw items ⇒ same parse result. -/
 theorem parse_perm_invariant_files (f g : Bytes) (mapOff : Nat) (rf rg : Bytes) (es es' : List MapEntry)
@@ -279,6 +305,8 @@ example : (∀ b ∈ exampleFile, b < 256) ∧ u32 (exampleFile.drop 0x34) = som
     (∀ e ∈ exampleFileMap, sameItems (withMap exampleFile 0x44 exampleFileMap.reverse) exampleFile e) ∧
     withMap exampleFile 0x44 exampleFileMap.reverse ≠ exampleFile ∧
     parseDex exampleFile = .ok ⟨[[0x41]], []⟩ := by decide +kernel
+example : (∀ e ∈ exampleFileMap, clearOf exampleFile (0x44 + 4) (0x44 + 4 + 12 * exampleFileMap.length) e) ∧
+    ¬ clearOf overlapFile (0x38 + 4) (0x38 + 4 + 12 * 2) ⟨0x2002, 1, 0x3C⟩ := by decide +kernel
 example : agreeOn (closure deps 0x0005) witCM (clear 0x2000 witCM) ∧ witCM ≠ clear 0x2000 witCM := by
   decide +kernel
 
